@@ -19,7 +19,24 @@ out = script.get(cmd, "")
 if isinstance(out, list):
     n = sum(1 for c in journal if c[0] == cmd) - 1
     out = out[min(n, len(out) - 1)]
-if isinstance(out, dict):
+if isinstance(out, dict) and "__fail__" in out:
+    # a failing command: {"__fail__": {"exit": n, "stderr": text, "stdout": text}}
+    f = out["__fail__"]
+    sys.stderr.write(f.get("stderr", ""))
+    sys.stdout.write(f.get("stdout", ""))
+    sys.exit(f.get("exit", 0))
+if isinstance(out, dict) and "__jobs__" in out:
+    # a job table: one line per id on the command line that the scheduler still knows, in command-line order;
+    # unknown ids only produce a message on stderr (as bjobs does)
+    lines = []
+    for a in sys.argv[1:]:
+        if a.isdigit():
+            if a in out["__jobs__"]:
+                lines.append(out["__jobs__"][a])
+            else:
+                sys.stderr.write(f"Job <{a}> is not found\n")
+    out = "".join(l + "\n" for l in lines)
+elif isinstance(out, dict):
     key = " ".join(sys.argv[1:])
     out = out.get(key, out.get("*", ""))
 sys.stdout.write(out)
